@@ -267,13 +267,27 @@ pub fn check_vector(unit: &Value, family: &str, p: &bpaf::OptionParser<Val>, t: 
 // name, C02's definitions): the occurrences feed different fields, so they may be permuted
 // ------------------------------------------------------------------------------------------
 fn run_shared_name(kind: usize, unit: &Value, only: Option<&[Tok]>, ctx: &mut Ctx) {
-    let d = crate::checks::c02::Dual { kind, len: 0 };
-    let p = match build_checked(&crate::checks::c02::dual_opts(&d)) {
+    // kinds >= 10: long names that are prefixes of each other (`--config` / `--config-dir` /
+    // `--con`), the shorter one declared first / last, values detached / attached
+    let opts = if kind >= 10 {
+        let config = P::arg(Names::long("config"), Ty::Os);
+        let dir = P::arg(Names::long("config-dir"), Ty::Os).opt();
+        let con = P::Switch(Names::long("con"));
+        let v = P::Switch(Names::short('v'));
+        Opts::new(P::Seq(if kind % 2 == 0 { vec![config, dir, con, v] } else { vec![v, con, dir, config] }))
+    } else {
+        crate::checks::c02::dual_opts(&crate::checks::c02::Dual { kind, len: 0 })
+    };
+    let p = match build_checked(&opts) {
         Ok(p) => p,
         Err(_) => return,
     };
     // blocks with the field they feed; blocks of one field keep their relative order
-    let blocks: Vec<(usize, Vec<&str>)> = if kind == 1 {
+    let blocks: Vec<(usize, Vec<&str>)> = if kind >= 12 {
+        vec![(0, vec!["--config=a"]), (1, vec!["--config-dir=d"]), (2, vec!["--con"]), (3, vec!["-v"])]
+    } else if kind >= 10 {
+        vec![(0, vec!["--config", "a"]), (1, vec!["--config-dir", "d"]), (2, vec!["--con"]), (3, vec!["-v"])]
+    } else if kind == 1 {
         vec![(0, vec!["--name=a"]), (1, vec!["--name"]), (2, vec!["-v"])]
     } else {
         vec![(0, vec!["--name=a"]), (0, vec!["-n=b"]), (1, vec!["--name", "x"]), (1, vec!["-n", "x"]), (2, vec!["-v"])]
@@ -373,7 +387,7 @@ impl Check for C03 {
         for (o, alpha) in alt_groups() {
             out.push(serde_json::to_value(Unit { opts: o, len: tier.pick(4, 5), family: "alt-groups".into(), alpha }).unwrap());
         }
-        for kind in 0..3 {
+        for kind in (0..3).chain(10..14) {
             out.push(json!({"shared_name": kind}));
         }
         out
@@ -433,7 +447,7 @@ impl Check for C03 {
         ctx.s.evaluations += c2.s.evaluations;
     }
     fn rule(&self) -> String {
-        "definitions = all ordered tuples of <=2 (thorough: 3) distinct field kinds from 12 (switch, argument, repeated argument, bare and repeated choice, optional and repeated group, hidden argument with fallback, guarded u32, counter, parse+fallback, optional choice with a defaulted branch) x 4 tails, plus the conventional family (alphabet with explicitly empty attached values `--name=`), plus exclusive alternatives of groups that share a switch ({-v [--level L]} | {-v --out O FILE..}, 30 ordered pairs of 6 group templates, with and without a neighbouring switch; here a field is a leaf parser, so items of one group and of different branches are permuted freely); plus levels with a configured version whose alphabet contains the help and version requests (--help -h --version -V are named occurrences of two more fields; equal stdout text demanded); base vectors = every vector of the token tree; each base vector that is a sequence of whole occurrences is cut into blocks (flag / argument with its value / word / undeclared dash item such as -z or -5, which keeps its place among the words; nothing crosses a command name or `--`; the occurrences right of a command name, the sub-command own ones and those of the enclosing level, are permuted among themselves as well) and EVERY permutation that keeps the relative order of blocks feeding one field and of the words is run and compared with the base outcome (equal value, or same failure class); evaluation = one run; non-trivial = base vector with at least one different permuted vector and at least one accepted order".into()
+        "definitions = all ordered tuples of <=2 (thorough: 3) distinct field kinds from 12 (switch, argument, repeated argument, bare and repeated choice, optional and repeated group, hidden argument with fallback, guarded u32, counter, parse+fallback, optional choice with a defaulted branch) x 4 tails, plus the conventional family (alphabet with explicitly empty attached values `--name=`), plus exclusive alternatives of groups that share a switch ({-v [--level L]} | {-v --out O FILE..}, 30 ordered pairs of 6 group templates, with and without a neighbouring switch; here a field is a leaf parser, so items of one group and of different branches are permuted freely); plus levels with a configured version whose alphabet contains the help and version requests (--help -h --version -V are named occurrences of two more fields; equal stdout text demanded); base vectors = every vector of the token tree; each base vector that is a sequence of whole occurrences is cut into blocks (flag / argument with its value / word / undeclared dash item such as -z or -5, which keeps its place among the words; nothing crosses a command name or `--`; the occurrences right of a command name, the sub-command own ones and those of the enclosing level, are permuted among themselves as well) and EVERY permutation that keeps the relative order of blocks feeding one field and of the words is run and compared with the base outcome (equal value, or same failure class); evaluation = one run; non-trivial = base vector with at least one different permuted vector and at least one accepted order; plus long names that are prefixes of each other (--config, --config-dir, --con; shorter declared first / last; detached / attached values): all 24 orders of the four blocks".into()
     }
     fn bounds(&self, tier: Tier) -> Value {
         json!({"fields_per_level": tier.pick("<=2 + tail", "<=3 + tail"), "vector_length": tier.pick("4 (shapes), 3 (conventional)", "5 (shapes), 4 (3-field shapes, conventional)")})
